@@ -91,7 +91,9 @@ fn main() {
                 Engine::Asan => 180.0,
                 _ => 60.0,
             };
-            ctx::start_progress_watchdog(prop_static, seed, engine, shard, out, bound);
+            // C11 loads at most a handful of files per case (each delivers end-of-file once or twice)
+            let eof_bound = if prop_static == "C11" { Some(400) } else { None };
+            ctx::start_progress_watchdog(prop_static, seed, engine, shard, out, bound, eof_bound);
             let mut idx = start + shard;
             while idx < start + ops {
                 c.begin_case(idx);
@@ -118,7 +120,7 @@ fn main() {
             let index = num("index", 0);
             let mut c = Ctx::new(prop_static, seed, tier, engine, 0, 1, None);
             c.replaying = true;
-            ctx::start_progress_watchdog(prop_static, seed, engine, 0, None, if matches!(engine, Engine::Miri | Engine::Memcheck) { 3600.0 } else { 60.0 });
+            ctx::start_progress_watchdog(prop_static, seed, engine, 0, None, if matches!(engine, Engine::Miri | Engine::Memcheck) { 3600.0 } else { 60.0 }, if prop_static == "C11" { Some(400) } else { None });
             c.logger_on = logger;
             println!("replaying {} seed={} tier={:?} engine={} index={}", prop, seed, tier, engine.name(), index);
             c.begin_case(index);
